@@ -79,6 +79,15 @@ func main() {
 		if *prop == "" {
 			*prop = c.Property
 		}
+		if c.Kind == "crash" {
+			// the whole check is the case: run it again under the supervisor
+			t := c.Extra["tier"]
+			if t == "" {
+				t = "quick"
+			}
+			os.Args = []string{os.Args[0], "-prop", *prop, "-tier", t}
+			os.Exit(supervise(*prop, t, seed))
+		}
 		pd, ok := props[*prop]
 		if !ok || pd.replay == nil {
 			fmt.Println("no replay for property", *prop)
@@ -98,6 +107,9 @@ func main() {
 	if !ok {
 		fmt.Println("unknown property", *prop)
 		os.Exit(2)
+	}
+	if os.Getenv("VERIF_CHILD") == "" && os.Getenv("VERIF_NO_SUPERVISOR") == "" {
+		os.Exit(supervise(*prop, *tier, seed))
 	}
 	run := core.NewRun(*prop, *tier, seed)
 	run.Floor = pd.floor
